@@ -46,7 +46,7 @@ func (m *Model) RunNilParse(s *Sink, rule string) {
 				return isASTInterface(x.Type())
 			case *ssa.Call:
 				sc := x.Call.StaticCallee()
-				if sc != nil && inPkg(sc, "parser") && strings.HasPrefix(sc.Name(), "parse") {
+				if sc != nil && inPkg(sc, "parser") && strings.HasPrefix(canonFnName(sc), "parse") {
 					return m.canReturnNil(sc)
 				}
 				// dynamic call of a registered parse function
@@ -115,7 +115,7 @@ func (m *Model) canReturnNil(fn *ssa.Function) bool {
 				return true
 			}
 			if c, ok := v.(*ssa.Call); ok {
-				if sc := c.Call.StaticCallee(); sc != nil && sc != fn && inPkg(sc, "parser") && strings.HasPrefix(sc.Name(), "parse") {
+				if sc := c.Call.StaticCallee(); sc != nil && sc != fn && inPkg(sc, "parser") && strings.HasPrefix(canonFnName(sc), "parse") {
 					if m.canReturnNilDepth(sc, 0) {
 						return true
 					}
@@ -275,19 +275,21 @@ func (m *Model) RunNilErr(s *Sink, rule string) {
 	good := map[*ssa.Function]bool{}
 	var cands []*ssa.Function
 	for _, fn := range parFns {
-		if !strings.HasPrefix(fn.Name(), "parse") && fn.Name() != "ParseProgram" {
+		// parse functions: methods of the parser whose single result is an AST node (pointer or interface from package ast)
+		if fn.Signature.Recv() == nil || fn.Signature.Results().Len() != 1 {
 			continue
 		}
-		if fn.Name() == "parseStatement" {
+		if fn == m.Method("parser", "Parser", "parseStatement") {
 			continue // its nil means "no statement starts here", the token is skipped by the caller
 		}
-		if fn.Signature.Results().Len() != 1 {
-			continue
-		}
-		switch fn.Signature.Results().At(0).Type().Underlying().(type) {
+		rt := fn.Signature.Results().At(0).Type()
+		switch rt.Underlying().(type) {
 		case *types.Pointer, *types.Interface:
 		default:
 			continue // a nil slice is the empty list, not a failure signal
+		}
+		if !strings.Contains(types.TypeString(rt, nil), modPath+"/ast.") {
+			continue
 		}
 		hasNil := false
 		for _, b := range fn.Blocks {
@@ -385,14 +387,14 @@ func (m *Model) RunNilErr(s *Sink, rule string) {
 			clean := false
 			a := m.NewArith(fn)
 			for _, f := range expandFacts(factsAt(b)) {
-				if c, isC := f.Cond.(*ssa.Call); isC && !f.Holds && c.Call.StaticCallee() != nil && c.Call.StaticCallee().Name() == "HasErrors" {
+				if c, isC := f.Cond.(*ssa.Call); isC && !f.Holds && c.Call.StaticCallee() != nil && canonFnName(c.Call.StaticCallee()) == "HasErrors" {
 					clean = true
 				}
 			}
 			if !clean {
 				for _, bb := range fn.Blocks {
 					for _, in := range bb.Instrs {
-						if c, isC := in.(*ssa.Call); isC && c.Call.StaticCallee() != nil && c.Call.StaticCallee().Name() == "Errors" {
+						if c, isC := in.(*ssa.Call); isC && c.Call.StaticCallee() != nil && canonFnName(c.Call.StaticCallee()) == "Errors" {
 							if a.ProveValLE(a.lenLin(c, 0), 0, pointOf(ret)) {
 								clean = true
 							}
